@@ -68,7 +68,14 @@ class Suspend:
 class Ctx:
     """Per-side context shared by all doubles of one case."""
 
+    track = False      # when True every new Ctx is appended to ``created`` (used by C17)
+    created = []
+
     def __init__(self, side="a"):
+        if Ctx.track:
+            Ctx.created.append(self)
+        self.accepted = []     # Suspend objects in the order they reached the driver
+        self.throw_target = None
         self.side = side
         self.log = []
         self.tokens = 0
@@ -120,6 +127,7 @@ def _accept(ctx, y):
         ctx.foreign.append(y)
         return False
     y.seen += 1
+    ctx.accepted.append(y)
     return True
 
 
@@ -166,6 +174,7 @@ def run(ctx, coro, cancel_at=None, cancel_exc=None, max_steps=200000):
         if cancel_at is not None and cancel_at == n:
             to_throw = cancel_exc
             thrown = True
+            ctx.throw_target = y if ours else None
 
 
 class Task:
